@@ -135,7 +135,11 @@ func (e *Evaluator) evalNode(t *Term) *big.Int {
 	case OpEq:
 		return b2i(e.arg(t, 0).Cmp(e.arg(t, 1)) == 0)
 	case OpAdd:
-		return wrap(new(big.Int).Add(e.arg(t, 0), e.arg(t, 1)), w)
+		r := new(big.Int)
+		for i := range t.Args {
+			r.Add(r, e.arg(t, i))
+		}
+		return wrap(r, w)
 	case OpSub:
 		return wrap(new(big.Int).Sub(e.arg(t, 0), e.arg(t, 1)), w)
 	case OpMul:
